@@ -96,6 +96,11 @@ CHECKS = {
          "Continuous quantifier; bounded-exhaustive over: Z = 1..103 x every one of the 4095 table intervals x 2 interior points + 8 radii beyond the table; all 8,400 placements of 1..3 atoms (thorough: + 45,360 of 4) from {H,C,O,Cl,Fe,U} on 7 sites x 125 lattice points: sum of atoms, positivity, every atom order, every bipartition (additivity, weights with 3 backgrounds, complements), 30 rigid motions.",
          "Tolerances: 1e-4 relative vs the table (float32 kernel), 1e-5 additivity/order, 5e-4 motions up to 50 A; points within 0.3 A of a nucleus excluded; compiled kernel as built.",
          "2/C05"),
+ "C09": ("exploration",
+         "bounded-exhaustive enumeration of poses (BFS rotation words x translations x all atom orders) x molecules x l_max x surfaces x property channels, with a calibrated error ladder and root-residual / error-reporting oracles",
+         "Continuous quantifier; bounded-exhaustive over 6 molecules x l_max {4,6,8,12} x {promolecule at 2 isovalues, stockholder with explicit exterior, Molecule API, per-atom API} x {none, d_norm, esp} x 31 rotations (all words of length <= 2 over 5 generators + a seed-rotated one) combined with 3 translations, all atom permutations, reversed exterior; radial function re-evaluated through the batch path; ValueError for surfaces wholly or partly outside the bounds; ice II and acetic acid in rigidly rotated lattices through 4 Crystal APIs.",
+         "Pose independence is up to discretisation: bounds per surface class and l_max calibrated on the unchanged tree (3-10x the worst observed over seeds 0..9), not derived; compiled root finder as built.",
+         "2/C09"),
 }
 
 ALL = ["C%02d" % i for i in range(1, 21)]
